@@ -688,6 +688,12 @@ func FuncKey(fn *ssa.Function) string {
 	for fn.Parent() != nil {
 		fn = fn.Parent()
 	}
+	hostMu.RLock()
+	h, ok := hostKey[fn]
+	hostMu.RUnlock()
+	if ok {
+		return h
+	}
 	if o, ok := fn.Object().(*types.Func); ok {
 		return funcKey2(o)
 	}
@@ -731,4 +737,49 @@ func (c *Ctx) ArgIndex(fn *ssa.Function, pinned int) (int, bool) {
 		return pinned, true
 	}
 	return 0, false
+}
+
+// A fresh function that is reached from exactly one pinned function (a helper extracted from it, a phase it has been
+// split into) answers to that function's name: obligations and table look-ups about code that has merely moved keep
+// their keys.
+var (
+	hostMu  sync.RWMutex
+	hostKey = map[*ssa.Function]string{}
+)
+
+func (c *Ctx) computeHosts() {
+	var fresh, pinned []*ssa.Function
+	for fn := range c.allFns {
+		if fn.Blocks == nil || fn.Parent() != nil || !c.IsLib(fn) || fn.Synthetic != "" {
+			continue
+		}
+		if c.IsFresh(fn) {
+			fresh = append(fresh, fn)
+		} else {
+			pinned = append(pinned, fn)
+		}
+	}
+	if len(fresh) == 0 {
+		return
+	}
+	hosts := map[*ssa.Function]map[string]bool{}
+	for _, g := range pinned {
+		for _, f := range c.Region(g) {
+			if f != g && f.Parent() == nil && c.IsFresh(f) {
+				if hosts[f] == nil {
+					hosts[f] = map[string]bool{}
+				}
+				hosts[f][FuncKey(g)] = true
+			}
+		}
+	}
+	hostMu.Lock()
+	defer hostMu.Unlock()
+	for f, hs := range hosts {
+		if len(hs) == 1 {
+			for k := range hs {
+				hostKey[f] = k
+			}
+		}
+	}
 }
